@@ -688,13 +688,32 @@ spec.contract(
                              ('index installed', installed),
                              ('stored designs are made of index positions',
                               _stored_ok, ('C01', 'C04', 'C09', 'C10'))],
-                 extra_modifies=EX_LOOP_MOD),
+                 # `self._search_results` is in the havoc set so that a body
+                 # that stores the heap inside this loop is still analysed
+                 # (the own-heap postcondition then decides)
+                 extra_modifies=EX_LOOP_MOD + ['self._search_results']),
     ])
 
 FUNCTIONS2.append(CLS + '.greedy_search')
 
+def _own_heap(s):
+  """No hidden state: the heap the search leaves on the object was created
+  by THIS call (so it holds only designs pushed by this call), on every path,
+  also when nothing was pushed."""
+  h = unwrap(s.self._search_results)
+  if isinstance(h, VOpt):
+    if z3.is_true(z3.simplify(h.none)):
+      return z3.BoolVal(False)
+    h = h.val
+  rec = s.ctx.objects[h.oid]
+  return z3.BoolVal(not rec.symbolic)
+
+
 for _q in ('exhaustive_search', 'greedy_search'):
   spec.contracts[CLS + '.' + _q].ensures.extend(_clauses([
+      ('C10 the stored result heap is the one created by this call (no '
+       'designs of an earlier search survive, whether or not anything was '
+       'pushed)', _own_heap, ('C10', 'C03', 'C13')),
       ('C01/C04 the returned list holds exactly copies of the stored designs '
        'with index groups mapped to geo IDs', _search_post_elems,
        ('C01', 'C04')),
